@@ -204,6 +204,66 @@ prop("C02", "exploration",
      "runtime monitor: self-describing record stream oracle + conservation against shim byte counts + stuck predicate", "DESIGN.md §3 C02", assumptions=ENGINE_ASSUME)
 
 
+LIFE_RULE = ("cases = connections of engine lives: per life (configuration seed-shuffled as in C01) 8-60 peers whose close cause is a function of (peer address, seed): peer FIN, peer RST, half-close, "
+             "Close action from OnOpen (with and without reply) or from the k-th OnTraffic, Conn.Close / CloseWithCallback from another goroutine, EventLoop.Close inside OnTraffic of the same connection "
+             "(with more data queued behind it) or of ANOTHER connection of the same loop, a Write that fails inside OnTraffic after the peer reset, FIN racing Conn.Close, Close action racing RST, engine "
+             "shutdown, idle bystanders, and stale handles (AsyncWrite/Wake/Close on closed connections while their descriptor numbers are being reused by fresh connections). ")
+prop("C04", "exploration",
+     LIFE_RULE + "Oracle: a per-connection automaton advanced in the callbacks (OnOpen once, OnTraffic only in state open, OnClose once, nothing afterwards), OnClose error nil only if a local cause was armed "
+     "and non-nil only if a remote/I-O cause was armed, late asynchronous writes must complete with an error, fresh connections must not be closed by requests on stale handles, and at quiescent points "
+     "Engine.CountConnections() == opened - closed. distinct_nontrivial = distinct (configuration class, close plan, nil/non-nil error) tuples whose whole trace was checked",
+     [
+         {"harness": "eng", "flavour": "shim", "args": {"quick": ["--mode", "c04", "--n", "20"], "thorough": ["--mode", "c04"]}, "timeout": {"quick": 900, "thorough": 3400}},
+         {"harness": "eng", "flavour": "shim", "tags": ["poll_opt"], "args": {"quick": ["--mode", "c04", "--n", "6"], "thorough": ["--mode", "c04", "--n", "60"]}, "timeout": {"quick": 900, "thorough": 3400}},
+         {"harness": "eng", "flavour": "shim", "tags": ["gc_opt"], "args": {"quick": ["--mode", "c04", "--n", "4"], "thorough": ["--mode", "c04", "--n", "60"]}, "timeout": {"quick": 900, "thorough": 3400}},
+     ],
+     "Online lifecycle automaton inside the event handler of real engines, driven by histories that mix every close cause, including closes requested from inside callbacks and races between causes.",
+     "close causes are armed by the harness just before it provokes them; a cause provoked by the kernel on its own (none on loopback) would be reported as unexpected",
+     "runtime monitor: per-connection lifecycle automaton + cause/error consistency + quiescent count check", "DESIGN.md §3 C04", assumptions=ENGINE_ASSUME)
+
+prop("C05", "exploration",
+     "cases = API calls: per engine life (5 quick / 40 thorough, configuration and load-balancing policy rotating, ticker on) 8-32 user goroutines fire AsyncWrite, AsyncWritev, Wake, Close, CloseWithCallback, "
+     "SafeContext, SetSafeContext, Fd, Dup, the socket-option setters, EventLoop.Execute/Register/Enroll, Engine.CountConnections, Engine.Register (not with RoundRobin) at live, closing and already closed "
+     "connections while 4 peers churn connections (some with RST) and finally two goroutines call Engine.Stop; in every second life a goroutine started in OnBoot calls CountConnections during start-up. "
+     "Built with -race (GORACE halt_on_error=0, report blocks counted and classified by vcheck: a block with a gnet frame is a violation, a harness-only block breaks the check). In every engine run of "
+     "every property the monitor also checks confinement: callbacks of one loop never overlap, always run on the same goroutine, a connection never changes loops. distinct_nontrivial = distinct "
+     "(configuration class, API call kind) pairs exercised under the race detector",
+     [
+         {"harness": "eng", "flavour": "shim", "race": True, "args": {"quick": ["--mode", "c05"], "thorough": ["--mode", "c05"]}, "timeout": {"quick": 900, "thorough": 3400}},
+         {"harness": "eng", "flavour": "shim", "race": True, "tags": ["poll_opt", "gc_opt"], "tiers": ["thorough"], "args": {"thorough": ["--mode", "c05", "--n", "12"]}, "timeout": {"thorough": 3400}},
+         {"harness": "eng", "flavour": "shim", "args": {"quick": ["--mode", "c04", "--n", "6"], "thorough": ["--mode", "c04", "--n", "30"]}, "timeout": {"quick": 900, "thorough": 3400}},
+     ],
+     "Go race detector over a hostile workload aimed at the documented concurrency-safe API, plus a goroutine-identity/overlap monitor inside every callback.",
+     "the detector judges only executed schedules; -race implies checkptr",
+     "race detector on hostile API workload + online confinement monitor (goroutine identity, overlap counters)", "DESIGN.md §3 C05", assumptions=ENGINE_ASSUME)
+
+prop("C06", "exploration",
+     LIFE_RULE + "Shutdown is requested from {Engine.Stop, package Stop, Shutdown returned by OnOpen / OnTraffic / OnClose / OnTick} at {idle, during a connect storm, during traffic} with 0-50 connections, ticker on/off. "
+     "Oracle over the event log: Run returns nil (Stop returns nil), every connection with OnOpen has exactly one OnClose logged before the return, OnShutdown exactly once, no callback of the engine after "
+     "the return (peers and stale handles keep poking during a grace interval); a Run that has not returned is a violation only if two goroutine dumps 2 s apart are identical. distinct_nontrivial = distinct "
+     "(configuration class, source, moment) tuples",
+     [
+         {"harness": "eng", "flavour": "shim", "args": {"quick": ["--mode", "c06", "--n", "18"], "thorough": ["--mode", "c06"]}, "timeout": {"quick": 900, "thorough": 3400}},
+         {"harness": "eng", "flavour": "shim", "tags": ["poll_opt"], "args": {"quick": ["--mode", "c06", "--n", "6"], "thorough": ["--mode", "c06", "--n", "60"]}, "timeout": {"quick": 900, "thorough": 3400}},
+     ],
+     "Event-log checker over complete engine lives with every documented shutdown source at hostile moments.",
+     "bounded time is decided by state (identical goroutine dumps), never by a wall-clock deadline alone",
+     "runtime monitor: offline event-log checks (exactly-once, ordering against Run's return) + goroutine-dump deadlock predicate", "DESIGN.md §3 C06", assumptions=ENGINE_ASSUME)
+
+prop("C07", "exploration",
+     LIFE_RULE + "Three independent observers per engine life: (1) the descriptor ledger fed by the syscall shim (every accept4/socket/dup/epoll_create1/eventfd/close/read/write/epoll_ctl the framework issues): any "
+     "operation on a number it has already closed, any touch of a descriptor the harness declared its own, any EBADF, and every descriptor still owned after Run returned (with creation site and whether it "
+     "was ever registered in epoll); (2) /proc/self/fd identity snapshots before the engine started and after Run returned, and the Unix socket file; (3) three canary goroutines that keep opening pipes on "
+     "just-freed numbers and verify inode and content. distinct_nontrivial = distinct (configuration class, close plan, error kind) and (configuration class, shutdown source, moment) tuples observed",
+     [
+         {"harness": "eng", "flavour": "shim", "args": {"quick": ["--mode", "c07", "--n", "14"], "thorough": ["--mode", "c07"]}, "timeout": {"quick": 900, "thorough": 3400}},
+         {"harness": "eng", "flavour": "shim", "tags": ["poll_opt"], "args": {"quick": ["--mode", "c07", "--n", "5"], "thorough": ["--mode", "c07", "--n", "60"]}, "timeout": {"quick": 900, "thorough": 3400}},
+     ],
+     "Descriptor ledger over a syscall shim + process descriptor table + canaries, during histories that close connections from every cause including from inside callbacks.",
+     "ledger rules are one-sided (they can miss, they cannot false-alarm); a use-after-close is only visible if it executes",
+     "runtime monitor: descriptor ledger over shimmed system calls + /proc/self/fd snapshots + canary descriptors", "DESIGN.md §3 C07", assumptions=ENGINE_ASSUME)
+
+
 # ---------------------------------------------------------------------------------------
 NOT_APPLICABLE = []
 
